@@ -28,11 +28,13 @@ T2 = {
     "index|%sparse_string|str::index|0" % DE:
         (r"split_at.*RangeFrom\{start: 1\}", "`rest` starts at the '\"' found by find; '\"' is one byte"),
     "overflow|%sparse_unsigned|Sub|0" % DE:
-        (r"48\)$", "ch matched '0'..='9' so ch as u8 >= b'0'", [r"^true: Le\(48, ", r"^true: Le\(.*, 57\)$"]),
+        (r"^Sub\(\((?P<ch>.*) as u8\), 48\)$", "ch matched '0'..='9' so ch as u8 >= b'0'", [r"^true: Le\(48, {ch}\)$", r"^true: Le\({ch}, 57\)$"]),
     "overflow|%sparse_unsigned::{closure#0}|Sub|0" % DE:
         (r"48\)$", "ch matched '0'..='9' so ch as u8 >= b'0' (closure of the checked accumulation)"),
     "index|%sparse_unsigned|str::index|0" % DE:
-        (r"RangeFrom\{start: 1\}", "the next char matched '0'..='9': one ASCII byte", [r"^true: Le\(48, .*Chars", r"^true: Le\(.*Chars.*, 57\)$"]),
+        (r"str::index\((?P<s>.*), std::ops::RangeFrom::RangeFrom\{start: 1\}\)", "the next char matched '0'..='9': one ASCII byte",
+         [r"^true: Le\(48, \(<std::str::Chars<'a> as std::iter::Iterator>::next\(core::str::<impl str>::chars\({s}\)\) as Some\)\.0\)$",
+          r"^true: Le\(\(<std::str::Chars<'a> as std::iter::Iterator>::next\(core::str::<impl str>::chars\({s}\)\) as Some\)\.0, 57\)$"]),
     "slice-api|%suntil_delim|str::split_at|0" % DE:
         (r"find\(self\.input", "index is the result of self.input.find(..) on the same string"),
     "overflow|<%sAlreadySeparated<'_, 'de> as serde::de::MapAccess<'de>>::next_key_seed|Add|0" % HM:
@@ -225,6 +227,11 @@ def run(ctx):
                 ctx.ok(rule, "T1 %s  %s" % (s.key, s.detail[:120]), s.loc(), r)
                 continue
             ent = ledger.t2_lookup(T2, s)
+            if ent is None and s.kind == "alloc" and s.fn == "engine::Condition::load_model":
+                # whatever API builds the per-stream vectors ([x].repeat(n), vec![x; n],
+                # Vec::with_capacity(n)), the audited fact is about the size: it is the validated
+                # stream count (rule C18-R4)
+                ent = (r"global_metadata\([^()]*\)\.num_streams\)$", "the size is metadata.num_streams == number of listed (and fully parsed) streams: validated by parse_htsvoice (rule C18-R4)")
             if ent:
                 reason = ent[1]
                 used_t2.add(s.key)
@@ -328,7 +335,7 @@ def r4(ctx, p):
         for bb_, t_ in lm.calls():
             c_ = t_["callee"]
             nm_ = cm.callee_name(c_) if c_["k"] == "fndef" else ""
-            if nm_.endswith("::repeat") and len(t_["args"]) == 2:
+            if (nm_.endswith("::repeat") or nm_.endswith("vec::from_elem")) and len(t_["args"]) == 2:
                 sizes.append(show(eb3.at(bb_).op(t_["args"][1])))
             if nm_.endswith("InterporationWeight::new") and len(t_["args"]) == 2:
                 sizes.append(show(eb3.at(bb_).op(t_["args"][1])))
